@@ -1478,8 +1478,12 @@ class FortranFile:
                     name, char_len = self.parse_imp_char(name)
                     if dims:
                         var_keywords.append(dims)
+                    var_kind = obj_info.var_kind
                     if char_len:
                         desc += char_len
+                        # The length of the entity replaces the one of the statement
+                        kind_only = re.search(r"kind[ ]*=[ ]*[^,)]+", var_kind or "", re.I)
+                        var_kind = f"({kind_only.group(0)})" if kind_only else None
 
                     name = name.strip()
                     keywords, keyword_info = map_keywords(var_keywords)
@@ -1503,7 +1507,7 @@ class FortranFile:
                             desc,
                             keywords,
                             keyword_info=keyword_info,
-                            kind=obj_info.var_kind,
+                            kind=var_kind,
                             link_obj=link_name,
                         )
                         # If the object is fortran_var and a parameter include
